@@ -100,6 +100,24 @@ theorem compute_def (w : Weights) (ig it : Bool)
   rw [h1, h2]
   exact computeS_def w ig it _ _
 
+/-- "the reported precision, recall and F-score equal the ratios …" with "zero denominators" made
+explicit: with `G`, `T`, `B` the weighted gold, test and matched totals of `compute_def`, the scores are
+`⟨0,0,0⟩` if any of the three is zero, and otherwise `p = B/T`, `r = B/G`, `f = 2·p·r/(p+r)`. -/
+theorem compute_zero_safe_ratios (w : Weights) (ig it : Bool)
+    (golds : List (Option (Graph ι))) (tests : List (Option (Graph κ)))
+    (hg : ∀ g, some g ∈ golds → argsOk g = true) (ht : ∀ t, some t ∈ tests → argsOk t = true)
+    {s : Score} (h : compute w ig it golds tests = .ok s) :
+    let ps := counted ig it (zipLongest (golds.map (·.map sigOf)) (tests.map (·.map sigOf)))
+    let G := wsum w (fun c => sumOver ps (fun g _ => (g.triples c).length))
+    let T := wsum w (fun c => sumOver ps (fun _ t => (t.triples c).length))
+    let B := wsum w (fun c => sumOver ps (fun g t => inter (g.triples c) (t.triples c)))
+    ((T = 0 ∨ G = 0 ∨ B = 0) → s = ⟨0, 0, 0⟩) ∧
+    (T ≠ 0 → G ≠ 0 → B ≠ 0 →
+      s.precision = B / T ∧ s.recall = B / G ∧
+      s.fscore = 2 * (s.precision * s.recall) / (s.precision + s.recall)) := by
+  rw [compute_def w ig it golds tests hg ht] at h
+  exact prf_ratios h
+
 /-! ## consequences -/
 
 /-- "Hence all three scores lie in [0,1]" — for all non-negative weight vectors, both flag
@@ -197,6 +215,28 @@ theorem compute_rename {ι' κ' : Type} [DecidableEq ι'] [DecidableEq κ'] (w :
   unfold compute
   rw [renamed_sig hg, renamed_sig ht]
 
+/-- Renaming stated on the INPUT of the DMRS constructor: `_normalize_top_and_links` (strip the links
+that start at `TOP_NODE_ID` = 0, the first of them giving the top) commutes with a renaming that is
+injective and fixes 0, so the triples of the constructed DMRS are those of the DMRS constructed from the
+renamed nodes, links and top.  (For an EDS the constructor does not look at ids: the `Graph` IS the
+input.)  Node id 0 is not available to DMRS nodes: see the counter-example below. -/
+theorem mkDmrs_rename {f : Nat → Nat} (hf : Function.Injective f) (h0 : f 0 = 0)
+    (top : Option Nat) (nodes : List (Node Nat)) (links : List (Link Nat)) :
+    (mkDmrs top nodes links).rename f
+        = mkDmrs (top.map f) (nodes.map (Node.rename f)) (links.map (Link.rename f))
+    ∧ sig (mkDmrs (top.map f) (nodes.map (Node.rename f)) (links.map (Link.rename f)))
+        = sig (mkDmrs top nodes links) := by
+  refine ⟨mkDmrs_rename' hf h0 top nodes links, ?_⟩
+  rw [← mkDmrs_rename' hf h0 top nodes links]
+  exact sig_rename' hf _
+
+/-- `f 0 = 0` cannot be dropped: shifting every id by one turns a legacy top link (start 0) into an
+ordinary link that starts at no node — the constructed structure then raises instead of having a top. -/
+theorem mkDmrs_rename_needs_zero_fixed :
+    argsOk (mkDmrs none [{ exN2 with id := 5 }] [⟨0, 5, []⟩]) = true
+    ∧ argsOk (mkDmrs none [Node.rename (· + 1) { exN2 with id := 5 }] [Link.rename (· + 1) ⟨0, 5, []⟩]) = false := by
+  decide
+
 /-- "… or reordering nodes": listing the nodes (and links) of a structure with distinct node
 ids in another order permutes every triple list and keeps the top span and the error
 behaviour … -/
@@ -217,6 +257,77 @@ theorem compute_reorder (w : Weights) (ig it : Bool)
   exact computeS_congr w ig it (reordered_items hg) (reordered_items ht)
 
 end graphs
+
+/-! ## graph-level witnesses: the hypotheses are satisfiable and the statements say something -/
+
+/-- the `_accumulate` totals of the example pair: names 2/4/2, arguments, properties, constants 1/1/1,
+tops 1/1/0 (different top spans) -/
+theorem ex_accumulate : accumulateG false false [some exG] [some exT]
+    = .ok ⟨⟨2, 4, 2⟩, ⟨1, 1, 1⟩, ⟨1, 1, 1⟩, ⟨1, 1, 1⟩, ⟨1, 1, 0⟩⟩ := by
+  have h1 : sig exG = .ok (sigOf exG) := (sig_eq_ok_iff exG).2 (by decide)
+  have h2 : sig exT = .ok (sigOf exT) := (sig_eq_ok_iff exT).2 (by decide)
+  have h3 : matchSig (sigOf exG) (sigOf exT) = ⟨⟨2, 4, 2⟩, ⟨1, 1, 1⟩, ⟨1, 1, 1⟩, ⟨1, 1, 1⟩, ⟨1, 1, 0⟩⟩ := by decide
+  simp [accumulateG, accumulate, zipLongest, accLoop, pairMatch, h1, h2, h3, Match.add, Match.zero,
+    Count.add, Count.zero]
+
+/-- `compute_def` / `compute_zero_safe_ratios` on a concrete pair: 6 gold, 8 test, 5 shared triples give
+precision 5/8, recall 5/6, F 5/7 (both structures satisfy the hypothesis `argsOk`). -/
+theorem ex_compute : compute exW false false [some exG] [some exT] = .ok ⟨5 / 8, 5 / 6, 5 / 7⟩ := by
+  have h := ex_accumulate
+  unfold accumulateG at h
+  unfold compute computeS
+  rw [h]
+  simp [scoreOf, total, prf, exW]
+  grind
+
+example : argsOk exG = true ∧ argsOk exT = true := by decide
+
+/-- `identical_is_one` with all five categories weighted positively, a `None` entry in the lists -/
+example : compute exW false false [some exG, none] [some exG, none] = .ok ⟨1, 1, 1⟩ := by
+  have h1 : sig exG = .ok (sigOf exG) := (sig_eq_ok_iff exG).2 (by decide)
+  have h3 : matchSig (sigOf exG) (sigOf exG) = ⟨⟨2, 2, 2⟩, ⟨1, 1, 1⟩, ⟨1, 1, 1⟩, ⟨1, 1, 1⟩, ⟨1, 1, 1⟩⟩ := by decide
+  have hacc : accumulateG false false [some exG, none] [some exG, none]
+      = .ok ⟨⟨2, 2, 2⟩, ⟨1, 1, 1⟩, ⟨1, 1, 1⟩, ⟨1, 1, 1⟩, ⟨1, 1, 1⟩⟩ := by
+    simp [accumulateG, accumulate, zipLongest, accLoop, pairMatch, h1, h3, Match.add, Match.zero,
+      Count.add, Count.zero]
+  exact identical_is_one exW_nonneg false false _ hacc .name (by simp [exW, Weights.get]; decide) (by decide)
+
+/-- `compute_rename`: the gold structure with every id shifted by 10 scores the same -/
+example : compute exW false false [some (exG.rename (· + 10))] [some exT] = .ok ⟨5 / 8, 5 / 6, 5 / 7⟩ := by
+  have hr : Renamed [some exG] [some (exG.rename (· + 10))] :=
+    Renamed.some (· + 10) (fun a b h => Nat.add_right_cancel h) exG Renamed.nil
+  have ht : Renamed [some exT] [some (exT.rename id)] :=
+    Renamed.some id (fun a b h => h) exT Renamed.nil
+  have := compute_rename exW false false [some exG] [some (exG.rename (· + 10))] [some exT] [some (exT.rename id)] hr ht
+  rw [ex_compute] at this
+  have hid : exT.rename id = exT := rfl
+  rw [hid] at this
+  exact this
+
+/-- `compute_reorder`: the gold structure with its nodes listed in the other order scores the same
+(distinct node ids, `Reordered` holds) -/
+example : compute exW false false [some exGr] [some exT] = .ok ⟨5 / 8, 5 / 6, 5 / 7⟩ := by
+  have hn : (exG.nodes.map (·.id)).Nodup := by decide
+  have hre : Reordered exG exGr := ⟨rfl, rfl, List.Perm.swap exN1 exN2 [], List.Perm.refl _⟩
+  have hg : ReorderedList [some exG] [some exGr] := ReorderedList.some exG exGr hn hre ReorderedList.nil
+  have hnT : (exT.nodes.map (·.id)).Nodup := by decide
+  have ht : ReorderedList [some exT] [some exT] :=
+    ReorderedList.some exT exT hnT ⟨rfl, rfl, List.Perm.refl _, List.Perm.refl _⟩ ReorderedList.nil
+  rw [compute_reorder exW false false hg ht]
+  exact ex_compute
+
+/-- `error_only_from_dangling_link`: a DMRS link that starts at no node makes `arguments()` raise … -/
+example : argsOk exD = false ∧ compute exW false false [some exD] [some exT] = .error .keyError := by
+  have h0 : argsOk exD = false := by decide
+  have h1 : sig exD = .error .keyError := by simp [sig, h0]
+  have h2 : sig exT = .ok (sigOf exT) := (sig_eq_ok_iff exT).2 (by decide)
+  refine ⟨h0, ?_⟩
+  simp [compute, computeS, accumulate, zipLongest, accLoop, pairMatch, h1, h2]
+
+/-- … but not when the pair is skipped: a missing test with `ignore_missing_test` scores ⟨0,0,0⟩ -/
+example : compute exW false true [some exD] ([none] : List (Option (Graph Nat))) = .ok ⟨0, 0, 0⟩ := by
+  simp [compute, computeS, accumulate, zipLongest, accLoop, pairMatch, scoreOf, total, prf, Match.zero, Count.zero]
+  intro h; exact absurd (by grind) h
 
 /-! ## the statements are not vacuous -/
 
